@@ -85,7 +85,7 @@ func checkC15(p *Prog, r *Report) {
 				return true
 			}
 			for _, c := range p.NodeCallsDeep(rs.Body) {
-				if p.CalleeName(c) == "ice.tcpPacketConn.closeAndLogError" && len(c.Args) == 1 && p.Canon(c.Args[0]) == p.Canon(rs.Value) {
+				if x, isClose := p.isCloseOf(c); isClose && p.Canon(x) == p.Canon(rs.Value) {
 					ok = true
 				}
 			}
@@ -402,7 +402,7 @@ func checkC15(p *Prog, r *Report) {
 				for _, fld := range []string{"TCPMuxDefault.connsIPv4", "TCPMuxDefault.connsIPv6"} {
 					if p.IsField(x.X, fld) {
 						for _, c := range p.NodeCallsDeep(x.Body) {
-							if p.CalleeName(c) == "ice.TCPMuxDefault.closeAndLogError" {
+							if _, isClose := p.isCloseOf(c); isClose {
 								closesConns[fld] = true
 							}
 						}
@@ -662,7 +662,7 @@ func checkC15(p *Prog, r *Report) {
 			}
 			collected = p.ObjOf(id)
 			for _, c := range p.NodeCallsDeep(rs.Body) {
-				if p.CalleeName(c) == "ice.TCPMuxDefault.closeAndLogError" && len(p.HeldAt(f, c)) == 0 {
+				if _, isClose := p.isCloseOf(c); isClose && len(p.HeldAt(f, c)) == 0 {
 					okClose = true
 				}
 			}
